@@ -279,7 +279,7 @@ func ParseContractFile(path, source string) (*ContractFile, error) {
 			case "assert":
 				rest := stripTrail(d.rest)
 				fs := strings.SplitN(rest, " ", 2)
-				if len(fs) != 2 || (fs[0] != "before" && fs[0] != "after") {
+				if len(fs) != 2 || (fs[0] != "before" && fs[0] != "after" && fs[0] != "in") {
 					return nil, fmt.Errorf("%s:%d: assert needs before|after \"stmt\" expr", path, d.line)
 				}
 				r2 := strings.TrimSpace(fs[1])
